@@ -245,6 +245,36 @@ var pureStatic = map[string]string{
 	"github.com/pkg/errors.WithStack": "wraps its argument",
 }
 
+// harmlessStd: standard-library functions that neither block nor touch anything a property is
+// about (clock reads, string formatting and parsing).  Frozen list; time.Sleep/After/NewTimer/
+// AfterFunc/Tick are deliberately not in it.
+func harmlessStd(f *ssa.Function) bool {
+	if f.Pkg == nil {
+		return false
+	}
+	recv := ""
+	if r := f.Signature.Recv(); r != nil {
+		recv = typeNameOf(r.Type())
+	}
+	switch f.Pkg.Pkg.Path() {
+	case "time":
+		if recv == "Time" || recv == "Duration" {
+			return true
+		}
+		return recv == "" && (f.Name() == "Now" || f.Name() == "Since" || f.Name() == "Until")
+	case "fmt":
+		return recv == "" && (f.Name() == "Sprintf" || f.Name() == "Sprint" || f.Name() == "Sprintln")
+	case "strings":
+		return recv == "" && f.Name() != "NewReader" && f.Name() != "NewReplacer"
+	}
+	return false
+}
+
+var nilPreservingWrap = map[string]bool{
+	"github.com/pkg/errors.Wrap": true, "github.com/pkg/errors.Wrapf": true,
+	"github.com/pkg/errors.WithStack": true, "github.com/pkg/errors.WithMessage": true,
+}
+
 func isLogType(t types.Type) bool {
 	for {
 		if p, ok := t.(*types.Pointer); ok {
@@ -700,6 +730,26 @@ func (w *Walker) addLit(s *State, t *Term, val bool, in ssa.Instruction) bool {
 	if t.K == "const" {
 		return (t.S == "true") == val
 	}
+	// pkg/errors.Wrap/Wrapf/WithStack/WithMessage(err, …) is nil exactly when err is nil: a nil test
+	// of the wrapped error is a nil test of the cause (a helper that returns a wrapped error and a
+	// caller that tests it decide the same thing as the original inline test)
+	if t.K == "binop" && t.S == "==" && len(t.A) == 2 {
+		for i := 0; i < 2; i++ {
+			x, other := t.A[i], t.A[1-i]
+			for x.K == "call" && other.IsNil() && len(x.A) >= 1 && nilPreservingWrap[x.S] {
+				x = x.A[0]
+			}
+			if x != t.A[i] {
+				nt := &Term{K: "binop", S: "==", A: []*Term{nil, nil}}
+				nt.A[i], nt.A[1-i] = x, other
+				t = nt
+				break
+			}
+		}
+		if t.A[0].IsNil() && t.A[1].IsNil() {
+			return val
+		}
+	}
 	key := t.Key()
 	for _, l := range s.lits {
 		if l.T.Key() == key {
@@ -751,9 +801,82 @@ func (w *Walker) Run(fn *ssa.Function, start *ssa.BasicBlock, stops map[*ssa.Bas
 		w.Inline = autoInline(w.P, fn, 60)
 	}
 	fr := &frame{fn: fn}
+	fr.params = w.receiverFieldParams(fn)
 	s := newState()
 	w.walkFrom(s, fr, start, 0, nil, true)
 	return w.Paths
+}
+
+// receiverFieldParams: for a private method or receiver-first function, a parameter that every
+// call site fills with the same field path of the very receiver it calls on
+// (`c.distribute(c.subscription, evs)`) stands for that field of the receiver; passing a field
+// explicitly or reading it inside are then the same thing to every rule.
+func (w *Walker) receiverFieldParams(fn *ssa.Function) map[*ssa.Parameter]*Term {
+	if fn.Parent() != nil || len(fn.Params) < 2 || fn.Object() == nil || fn.Object().Exported() {
+		return nil
+	}
+	if fn.Signature.Recv() == nil && recvLikeType(fn) == "" {
+		return nil
+	}
+	if memo, ok := w.P.rfpMemo[fn]; ok {
+		return memo
+	}
+	var out map[*ssa.Parameter]*Term
+	defer func() {
+		if w.P.rfpMemo == nil {
+			w.P.rfpMemo = map[*ssa.Function]map[*ssa.Parameter]*Term{}
+		}
+		w.P.rfpMemo[fn] = out
+	}()
+	sites := w.P.callersOf(fn)
+	if len(sites) == 0 {
+		return nil
+	}
+	recv := &Term{K: "param", S: fn.Params[0].Name(), V: fn.Params[0]}
+	for idx := 1; idx < len(fn.Params); idx++ {
+		var path []string
+		ok := true
+		for _, site := range sites {
+			ci, isCall := site.In.(ssa.CallInstruction)
+			if !isCall || site.Kind == "value" || idx >= len(ci.Common().Args) {
+				ok = false
+				break
+			}
+			cfr := &frame{fn: site.Fn}
+			st := newState()
+			r := w.eval(st, cfr, ci.Common().Args[0])
+			a := w.eval(st, cfr, ci.Common().Args[idx])
+			// a must be r.f1.f2…
+			var fields []string
+			x := a
+			for x != nil && x.K == "field" && len(x.A) == 1 {
+				fields = append([]string{x.S}, fields...)
+				x = x.A[0]
+			}
+			if len(fields) == 0 || x == nil || r == nil || x.Key() != r.Key() || (r.K != "param" && r.K != "freevar") {
+				ok = false
+				break
+			}
+			if path == nil {
+				path = fields
+			} else if strings.Join(path, ".") != strings.Join(fields, ".") {
+				ok = false
+				break
+			}
+		}
+		if !ok || path == nil {
+			continue
+		}
+		t := recv
+		for _, f := range path {
+			t = &Term{K: "field", S: f, A: []*Term{t}}
+		}
+		if out == nil {
+			out = map[*ssa.Parameter]*Term{}
+		}
+		out[fn.Params[idx]] = t
+	}
+	return out
 }
 
 func (w *Walker) endPath(s *State, end PathEnd, phiNext map[string]*Term) {
@@ -1024,6 +1147,12 @@ func (w *Walker) call(s *State, fr *frame, b *ssa.BasicBlock, i int, in *ssa.Cal
 			s.val[in] = e.Res
 			return false
 		}
+	}
+	if f := c.StaticCallee(); f != nil && harmlessStd(f) {
+		// a value for a log line or a message: not an effect; anything that branches on it still
+		// shows up as a path condition
+		s.val[in] = w.callTerm(s, fr, in, c)
+		return false
 	}
 	if f := c.StaticCallee(); f != nil && w.Inline[f] && f.Blocks != nil && fr.depth < 3 {
 		nf := &frame{fn: f, depth: fr.depth + 1, params: map[*ssa.Parameter]*Term{}}
